@@ -237,6 +237,9 @@ func genType(rt *rapid.T, o TypeOpts, depth int, top bool) TypeDesc {
 	switch rapid.IntRange(0, 9).Draw(rt, "ctor") {
 	case 0, 1:
 		e := genType(rt, o, depth-1, false)
+		if o.avoid("ptrptr") && e.K == "ptr" {
+			return e
+		}
 		return TypeDesc{K: "ptr", Elem: &e}
 	case 2, 3:
 		e := genType(rt, o, depth-1, false)
@@ -287,6 +290,9 @@ func genStruct(rt *rapid.T, o TypeOpts, depth int) TypeDesc {
 			f.Name = fmt.Sprintf("F%02d", i)
 		} else {
 			f.Name = rapid.SampledFrom(goFieldNames).Draw(rt, "fname")
+			if o.avoid("unifold") && hasFoldRune(f.Name) {
+				f.Name = "K"
+			}
 			if rapid.IntRange(0, 11).Draw(rt, "unexp") == 0 {
 				f.Name = rapid.SampledFrom(unexportedNames).Draw(rt, "uname")
 			}
@@ -310,6 +316,9 @@ func genStruct(rt *rapid.T, o TypeOpts, depth int) TypeDesc {
 			}
 			if rapid.IntRange(0, 5).Draw(rt, "embtag") == 0 {
 				tg := rapid.SampledFrom(tagPool).Draw(rt, "tag")
+				if o.avoid("unifold") && hasFoldRune(tg) {
+					tg = "k"
+				}
 				f.Tag = &tg
 			}
 			d.Fields = append(d.Fields, f)
@@ -323,6 +332,12 @@ func genStruct(rt *rapid.T, o TypeOpts, depth int) TypeDesc {
 		f.T = genType(rt, o, fd, false)
 		if rapid.IntRange(0, 9).Draw(rt, "hastag") < 4 {
 			tg := rapid.SampledFrom(tagPool).Draw(rt, "tag")
+			if o.avoid("unifold") && hasFoldRune(tg) {
+				tg = "k"
+			}
+			if o.avoid("string-on-number") && strings.Contains(tg, ",string") && f.T.K == "number" {
+				tg = strings.ReplaceAll(tg, ",string", "")
+			}
 			if !(o.avoid("string-on-marshaler") && strings.Contains(tg, ",string") && HasMarshalMethods(f.T.Type())) {
 				f.Tag = &tg
 			}
@@ -375,3 +390,10 @@ func HasMarshalMethods(t reflect.Type) bool {
 	}
 	return false
 }
+
+// hasFoldRune: the string contains a non-ASCII rune that case-folds to an
+// ASCII letter (Kelvin sign, long s).
+func hasFoldRune(s string) bool { return strings.ContainsAny(s, "\u212a\u017f") }
+
+// HasFoldRune is the exported form.
+func HasFoldRune(s string) bool { return hasFoldRune(s) }
